@@ -30,6 +30,18 @@ def gen(rng, tier):
                        builtins=rng.random() < 0.3, deep=rng.random() < 0.15)
         p = progs.gen_program(rng, o)
         cases.append({'kind': 'ast', 'clauses': p['clauses']})
+    # clause-head names of every lexical form: quoted names that are / are not identifiers, non-ASCII
+    # letters (including ones that Python's identifier normalisation (NFKC) would change), digits, spaces
+    pool = ['µs', 'ﬁle', 'ª', 'x²', 'Ⅸ', 'été', '中文', 'ｆｕｌｌ', 'K', 'ſ', 'a b', '1a', 'a-b', 'A', '_a', 'a_1', 'a1_', 'Ab_c', '', 'a.b', "it's", 'a\nb',
+            'def', 'None', 'True', 'x' * 300, 'é', 'e\u0301', 'ǆ', 'ﬀ', '\u00aa', 'ℌ', '𝐚', 'a\u200db', 'A\u0308']
+    pool = [x.encode().decode('unicode_escape') if '\\u' in x or '\\n' in x else x for x in pool]
+    for i in range(24 if tier == 'quick' else 400):
+        nm = rng.choice(pool)
+        if "\\" in nm:
+            continue
+        q = "'" + nm.replace("'", "\\'") + "'"
+        form = rng.choice(["%s(a).", "%s.", "%s(X) :- q(X).\nq(1).", "p(b).\n%s(a, b).\nfile(c).\nf(d).", "%s :- true."])
+        cases.append({'kind': 'text', 'source': form % q})
     return cases
 
 def builtin_corpus():
